@@ -312,7 +312,31 @@ static int dd_vals(int argc, char **argv)
    return 0;
    }
 
+/* dd.tocur: the decoded dataset becomes the current dataset (and its template the current template) */
+extern BUFR_Template *cur_tmpl;
+static int dd_tocur(int argc, char **argv)
+   {
+   (void)argv;
+   if (argc != 1 || !dec_dts) { fputs("none", bvp_out); return 0; }
+   if (cur_dts) bufr_free_dataset(cur_dts);
+   cur_dts = dec_dts; dec_dts = NULL;
+   if (cur_tmpl) bufr_free_template(cur_tmpl);
+   cur_tmpl = bufr_copy_template(cur_dts->tmplte);
+   fprintf(bvp_out, "ok %d", bufr_count_datasubset(cur_dts));
+   return 0;
+   }
+
+/* dd.merge <dest_pos> <src_pos> <nb>: bufr_merge_dataset(current, dest_pos, decoded, src_pos, nb) */
+static int dd_merge(int argc, char **argv)
+   {
+   if (argc != 4 || !dec_dts || !cur_dts) { fputs("none", bvp_out); return 0; }
+   fprintf(bvp_out, "%d", bufr_merge_dataset(cur_dts, atoi(argv[1]), dec_dts, atoi(argv[2]), atoi(argv[3])));
+   fprintf(bvp_out, " %d", bufr_count_datasubset(cur_dts));
+   return 0;
+   }
+
 struct op_entry ops_codec[] = {
    { "ss.vals", ss_vals }, { "ss.setraw", ss_setraw }, { "ss.setstr", ss_setstr },
    { "ss.fill", ss_fill }, { "ds.encode", ds_encode }, { "ds.decode", ds_decode }, { "ds.decodelast", ds_decodelast }, { "dd.list", dd_list }, { "dd.vals", dd_vals },
+   { "dd.tocur", dd_tocur }, { "dd.merge", dd_merge },
    { NULL, NULL } };
